@@ -349,6 +349,23 @@ class Evaluator(object):
                         out.append(new)
                         i += 2
                         done = True
+            if not done and isinstance(a, ast.For) and not a.orelse and isinstance(a.target, ast.Name) and a.body \
+                    and isinstance(a.iter, ast.Call) and isinstance(a.iter.func, ast.Name) and a.iter.func.id == 'range' and len(a.iter.args) == 1 \
+                    and isinstance(a.iter.args[0], ast.Call) and isinstance(a.iter.args[0].func, ast.Name) and a.iter.args[0].func.id == 'len' \
+                    and len(a.iter.args[0].args) == 1:
+                # `for i in range(len(xs)): x = xs[i]; ...` is `for i, x in enumerate(xs): ...`
+                xs = a.iter.args[0].args[0]
+                first = a.body[0]
+                if isinstance(first, ast.Assign) and len(first.targets) == 1 and isinstance(first.targets[0], ast.Name) and isinstance(first.value, ast.Subscript) \
+                        and isinstance(first.value.slice, ast.Name) and first.value.slice.id == a.target.id and ast.dump(first.value.value) == ast.dump(xs) \
+                        and first.targets[0].id != a.target.id and len(a.body) > 1:
+                    new = ast.For(target=ast.Tuple(elts=[ast.Name(id=a.target.id, ctx=ast.Store()), ast.Name(id=first.targets[0].id, ctx=ast.Store())], ctx=ast.Store()),
+                                  iter=ast.Call(func=ast.Name(id='enumerate', ctx=ast.Load()), args=[xs], keywords=[]), body=a.body[1:], orelse=[])
+                    ast.copy_location(new, a)
+                    ast.fix_missing_locations(new)
+                    out.append(new)
+                    i += 1
+                    done = True
             if not done:
                 out.append(a)
                 i += 1
